@@ -128,7 +128,10 @@ fn real_main() -> i32 {
             let seed: u64 = args.get(3).and_then(|s| s.parse().ok()).unwrap_or(1);
             let show = args.iter().any(|a| a == "--show");
             let nodes: u32 = args.iter().position(|a| a == "--nodes").and_then(|i| args.get(i + 1)).and_then(|s| s.parse().ok()).unwrap_or(60);
-            let ctx = verif::driver::Ctx::new("sample", Tier::Quick, seed);
+            let mut ctx = verif::driver::Ctx::new("sample", Tier::Quick, seed);
+            if !args.iter().any(|a| a == "--open-gates") {
+                ctx.closed_gates = verif::driver::all_closed_gates();
+            }
             let mut stats: std::collections::BTreeMap<String, u64> = Default::default();
             for i in 0..n {
                 let mut bytes = vec![0u8; 400];
@@ -138,12 +141,25 @@ fn real_main() -> i32 {
                     *b = (x >> 32) as u8;
                 }
                 let mut d = verif::util::Dec::new(&bytes);
-                let mut gates = verif::gen::build::NoGates;
-                let p = verif::gen::build::gen_program(&mut d, verif::gen::build::GenCfg::full(nodes), &mut gates);
+                let p = verif::gen::build::gen_program(&mut d, verif::gen::build::GenCfg::full(nodes), &mut ctx);
                 let text = verif::gen::render::render(&p);
                 let r = verif::goml::compile_single(&ctx, &text);
                 let rs = verif::refsem::run(&p, 200_000);
-                let key = format!("{} / ref:{}", r.stage(), match &rs.end { Ok(e) => format!("{:?}", e), Err(m) => format!("discard({})", m) });
+                let beh = match &r {
+                    verif::goml::CompileRes::Ok(_, go) => match verif::behave::compare(&p, go, "C01") {
+                        verif::behave::Verdict::Agree => "agree".to_string(),
+                        verif::behave::Verdict::Skip(w) => format!("skip({w})"),
+                        verif::behave::Verdict::Fail(sig, detail) => {
+                            if args.iter().any(|a| a == "--fails") {
+                                println!("=== case {i}: {sig}\n{text}\n{detail}");
+                                if args.iter().any(|a| a == "--go") { println!("{go}"); }
+                            }
+                            format!("FAIL {sig}")
+                        }
+                    },
+                    _ => "-".to_string(),
+                };
+                let key = format!("{} / ref:{} / {}", r.stage(), match &rs.end { Ok(e) => format!("{:?}", e), Err(m) => format!("discard({})", m) }, beh);
                 *stats.entry(key).or_insert(0) += 1;
                 let bad = !matches!(r, verif::goml::CompileRes::Ok(..));
                 if show || bad {
@@ -158,6 +174,71 @@ fn real_main() -> i32 {
                 }
             }
             for (k, v) in stats { println!("{v:>6}  {k}"); }
+        }
+        "irck-corpus" => {
+            // debugging aid: IR consistency check of every corpus program (target: 0 errors)
+            let n = verif::irck::mutate::run_corpus();
+            return if n == 0 { 0 } else { 1 };
+        }
+        "irck-mutate" => {
+            // debugging aid: sensitivity of the IR checkers to injected corruptions
+            verif::irck::mutate::run_mutate();
+        }
+        "irck-check" => {
+            // debugging aid: verif irck-check <file.gom | dir>
+            let p = PathBuf::from(args.get(2).unwrap_or_else(|| usage()));
+            let path = if p.is_dir() { p.join("main.gom") } else { p };
+            let src = std::fs::read_to_string(&path).unwrap_or_default();
+            match verif::goml::compile_at(path.clone(), &src) {
+                verif::goml::CompileRes::Ok(c, _) => {
+                    let t = std::time::Instant::now();
+                    let (errs, stats) = verif::irck::check_all(&c);
+                    eprintln!("{} errors, {:?}, {:?}", errs.len(), stats, t.elapsed());
+                    for e in errs {
+                        println!("{e}");
+                    }
+                }
+                verif::goml::CompileRes::Err(e) => {
+                    for m in verif::goml::diag_messages(e.diagnostics()) {
+                        eprintln!("{m}");
+                    }
+                }
+                verif::goml::CompileRes::Panic(p) => eprintln!("PANIC {}:{} {}", p.file, p.line, p.message),
+            }
+        }
+        "irck-fuzz" => {
+            // debugging aid: token-level variants of corpus programs through the IR checkers
+            verif::irck::mutate::run_fuzz();
+        }
+        "irck-dump" => {
+            // debugging aid: verif irck-dump <file.gom | dir> [core|mono|lift|anf] [--debug]
+            let p = PathBuf::from(args.get(2).unwrap_or_else(|| usage()));
+            let path = if p.is_dir() { p.join("main.gom") } else { p };
+            let src = std::fs::read_to_string(&path).unwrap_or_default();
+            let stage = args.get(3).map(|s| s.as_str()).unwrap_or("all");
+            let dbg = args.iter().any(|a| a == "--debug");
+            match verif::goml::compile_at(path.clone(), &src) {
+                verif::goml::CompileRes::Ok(c, _) => {
+                    if stage == "core" || stage == "all" {
+                        println!("==== core\n{}", if dbg { format!("{:#?}", c.core) } else { c.core.to_pretty(&c.genv, 120) });
+                    }
+                    if stage == "mono" || stage == "all" {
+                        println!("==== mono\n{}", if dbg { format!("{:#?}", c.mono) } else { c.mono.to_pretty(&c.monoenv, 120) });
+                    }
+                    if stage == "lift" || stage == "all" {
+                        println!("==== lift\n{}", if dbg { format!("{:#?}", c.lambda) } else { c.lambda.to_pretty(&c.liftenv, 120) });
+                    }
+                    if stage == "anf" || stage == "all" {
+                        println!("==== anf\n{}", if dbg { format!("{:#?}", c.anf) } else { c.anf.to_pretty(&c.anfenv, 120) });
+                    }
+                }
+                verif::goml::CompileRes::Err(e) => {
+                    for m in verif::goml::diag_messages(e.diagnostics()) {
+                        eprintln!("{m}");
+                    }
+                }
+                verif::goml::CompileRes::Panic(p) => eprintln!("PANIC {}:{} {}", p.file, p.line, p.message),
+            }
         }
         "compile" => {
             // debugging aid: verif compile <file.gom | project dir> [--go]
